@@ -60,7 +60,7 @@ func labelFilter(prefixes ...string) func(string) bool {
 			}
 		}
 		// engine-level findings always count
-		return l == "deadlock" || strings.HasPrefix(l, "uncaught-panic") || l == "fatal-unlock" || l == "no-progress-loop"
+		return l == "deadlock" || l == "livelock" || l == "hang" || strings.HasPrefix(l, "uncaught-panic") || l == "fatal-unlock" || l == "no-progress-loop"
 	}
 }
 
